@@ -13,8 +13,10 @@ import (
 	"github.com/kardiachain/go-kardia/configs"
 	"github.com/kardiachain/go-kardia/kai/accounts/abi"
 	"github.com/kardiachain/go-kardia/kai/kaidb"
+	"github.com/kardiachain/go-kardia/kai/rawdb"
 	"github.com/kardiachain/go-kardia/kvm"
 	"github.com/kardiachain/go-kardia/lib/common"
+	"github.com/kardiachain/go-kardia/lib/rlp"
 	"github.com/kardiachain/go-kardia/mainchain/blockchain"
 	"github.com/kardiachain/go-kardia/mainchain/staking"
 	"github.com/kardiachain/go-kardia/types"
@@ -281,6 +283,9 @@ func runScenario(cs *core.Case, r *rand.Rand, o scenarioOpts, tag string) *finge
 	fixedContracts(w)
 	directedContracts(w)
 	creationContracts(w)
+	if o.Long != nil && o.Heights > 40 {
+		prefillBallast(w, ballastPrefill)
+	}
 	gen := chainkit.Genesis(w, o.Powers, galaxias)
 	rs := &replicaSet{cfgs: append([]repCfg(nil), o.Replicas...)}
 	defer rs.close()
@@ -370,6 +375,11 @@ func runScenario(cs *core.Case, r *rand.Rand, o scenarioOpts, tag string) *finge
 		if rr.Intn(3) == 0 && o.Long == nil {
 			all := cacheConfigs()
 			cfg = all[rr.Intn(len(all))]
+		}
+		if o.Long != nil {
+			if name := o.Long.Reconfig[i][h]; name != "" {
+				cfg = cfgByName(name)
+			}
 		}
 		shown := cfg
 		shown.Name = rs.orig[i] + "->reopened-as-" + cfg.Name
@@ -543,8 +553,26 @@ func runScenario(cs *core.Case, r *rand.Rand, o scenarioOpts, tag string) *finge
 		}
 		results := make([]res, len(rs.chains))
 		orders := map[string]bool{}
-		for i, ch := range rs.chains {
+		// (replicas reopened before this height go first: a node executes the next block as soon as it is up)
+		var applyOrder []int
+		for pass := 0; pass < 2; pass++ {
+			for i := range rs.chains {
+				if (rs.lastRestart[i] == h) == (pass == 0) {
+					applyOrder = append(applyOrder, i)
+				}
+			}
+		}
+		for _, i := range applyOrder {
+			ch := rs.chains[i]
+			bg := rs.base[i].Snap && rs.base[i].Cache != nil && !rs.base[i].Cache.SnapshotWait
+			genBefore := bg && generatorRunning(ch)
 			err := ch.Apply(blk, ps, seen)
+			if genBefore {
+				run.Count("blocks_started_while_the_snapshot_generator_was_running", 1)
+				if generatorRunning(ch) {
+					run.Count("blocks_executed_entirely_while_the_snapshot_generator_was_running", 1)
+				}
+			}
 			x := res{err: err}
 			if err == nil {
 				x.state = canonState(ch.State)
@@ -764,6 +792,25 @@ func runScenario(cs *core.Case, r *rand.Rand, o scenarioOpts, tag string) *finge
 		run.Sample(smp)
 	}
 	return fp
+}
+
+// generatorRunning reads the progress record the snapshot generator keeps in the node's database (written when it starts,
+// at every batch it flushes and, with Done set, when it has finished).
+func generatorRunning(ch *chainkit.Chain) bool {
+	blob := rawdb.ReadSnapshotGenerator(ch.N.DB)
+	if len(blob) == 0 {
+		return false
+	}
+	var g struct {
+		Wiping                   bool
+		Done                     bool
+		Marker                   []byte
+		Accounts, Slots, Storage uint64
+	}
+	if err := rlp.DecodeBytes(blob, &g); err != nil {
+		return false
+	}
+	return !g.Done
 }
 
 // trieOnlyOrFirst: the replica whose head state the observers read (a trie-only one: its reads do not touch any snapshot cache).
